@@ -1589,6 +1589,11 @@ class Interp(object):
                 return self.builtin(callee.kind[5:], args, kwargs, node, frame)
             self.path.unknown.append(text)
             return Top('call')
+        if isinstance(callee, Obj) and self.repo.has_cls(callee.cls):
+            # an instance of a class of the repository that defines __call__
+            m = self.repo.method(callee.cls, '__call__', required=False)
+            if m is not None:
+                return self.call_function(m, [callee] + list(args), kwargs, node, frame)
         if callee is None or (isinstance(callee, (bool, int, float, str, bytes, list, dict)) and not isinstance(callee, tuple)):
             # calling a concrete value that is not callable ('NoneType' object is not callable, ...)
             raise Raise('TypeError', node, self.where(node, frame))
